@@ -23,8 +23,8 @@ ASSUMPTIONS = [
     "receive_exactly(n) is called with n >= 0 and receive_until with a non-empty delimiter (documented domain)",
     "text: alphabet 'a', U+00E9, U+20AC, U+1D11E, U+FEFF; strings up to 3 characters; encodings utf-8, utf-16, utf-32, latin-1 (latin-1 restricted to its repertoire)",
 ]
-OUTSIDE = ["byte strings longer than the stated bound, more than 3 calls in a sequence", "codec internals (C code) are executed concretely", "suspension/cancellation inside the wrapped receive()"]
-MUST_REACH = ["buf:delimiter-spans-chunks", "buf:surplus-kept", "buf:incomplete-read", "buf:delimiter-not-found", "buf:exactly-across-chunks", "buf:fed-data-first", "buf:fault-during-call", "buf:long-delimiter-mostly-in-older-chunk",
+OUTSIDE = ["byte strings longer than the stated bound, more than 3 calls in a sequence", "codec internals (C code) are executed concretely", "suspension/cancellation inside the wrapped receive() other than: one failure (fault units) / one interleaved feed_data() (feed-while-waiting units)"]
+MUST_REACH = ["buf:delimiter-spans-chunks", "buf:surplus-kept", "buf:incomplete-read", "buf:delimiter-not-found", "buf:exactly-across-chunks", "buf:fed-data-first", "buf:fault-during-call", "buf:long-delimiter-mostly-in-older-chunk", "buf:fed-while-receive-pending", "buf:fed-while-receive-pending-then-surplus",
               "text:split-inside-character", "text:multi-send"]
 
 
@@ -46,9 +46,12 @@ def _mk_stubs():
             self.log = log
             self.fault = fault
             self.ncalls = 0
+            self.during = None  # (k, fn): fn() runs while the k-th receive() call is "suspended" (another task acts meanwhile)
 
         async def receive(self):
             self.ncalls += 1
+            if self.during is not None and self.during[0] == self.ncalls - 1:
+                self.during[1]()
             if self.fault is not None and self.fault[0] == self.ncalls - 1:
                 raise self.fault[1]
             if not self.chunks:
@@ -69,9 +72,12 @@ def _mk_stubs():
             self.log = log
             self.fault = fault
             self.ncalls = 0
+            self.during = None
 
         async def receive(self, max_bytes=65536):
             self.ncalls += 1
+            if self.during is not None and self.during[0] == self.ncalls - 1:
+                self.during[1]()
             if self.fault is not None and self.fault[0] == self.ncalls - 1:
                 raise self.fault[1]
             if not self.chunks:
@@ -268,6 +274,71 @@ def buffered(sym, cov, kind, calls, L, feed=False, fault=None, DL=2, FL=2):
         invariant(op)
 
 
+def buffered_feed_during(sym, cov, kind, calls, L):
+    """feed_data() called by another task WHILE a receive()/receive_exactly() call is waiting for the wrapped stream
+    (modelled as an action inside the wrapped stub's k-th receive(), k symbolic).  Stream bytes are 1..L, fed bytes
+    101.., all distinct, lengths / chunk boundaries / n symbolic: after draining the stream to its end the bytes handed
+    out must be an order-preserving merge of both sources -- nothing dropped, duplicated or reordered."""
+    from anyio import EndOfStream, IncompleteRead
+    from anyio.streams.buffered import BufferedByteReceiveStream
+
+    ObjSrc, ByteSrc = _mk_stubs()
+    dl = sym.realize(sym.int("dl", 0, L))
+    data = bytes(range(1, L + 1))[:dl]
+    c1 = sym.int("c1", 0, L)
+    c2 = sym.int("c2", 0, L)
+    sym.assume(c1 <= c2)
+    sym.assume(c2 <= dl)
+    c1 = sym.realize(c1)
+    c2 = sym.realize(c2)
+    chunks = [c for c in (data[:c1], data[c1:c2], data[c2:]) if len(c) > 0]
+    fl = sym.realize(sym.int("fl", 1, 2))
+    fed = bytes([101, 102])[:fl]
+    fk = sym.int("fk", 0, 3)
+    src = (ObjSrc if kind == "obj" else ByteSrc)(chunks, [])
+    s = BufferedByteReceiveStream(src)
+    st = {"fed": False}
+
+    def feed_now():
+        st["fed"] = True
+        st["buffer_at_feed"] = len(s.buffer)
+        s.feed_data(fed)
+
+    src.during = (fk, feed_now)
+    out = b""
+    for idx, op in enumerate(calls):
+        if op == "r":
+            n = sym.int("n%d" % idx, 1, L + 1)
+            try:
+                got = run(s.receive(n))
+            except EndOfStream:
+                continue
+            chk(1 <= len(got) <= n, "receive-size", {"n": n, "len": len(got)})
+        else:
+            n = sym.int("n%d" % idx, 0, L + 1)
+            try:
+                got = run(s.receive_exactly(n))
+            except IncompleteRead:
+                continue
+            chk(len(got) == n, "receive_exactly-size", {"n": n, "len": len(got)})
+        out += got
+    cov.hit("buf:fed-while-receive-pending", st["fed"])
+    cov.hit("buf:fed-while-receive-pending-then-surplus", st["fed"] and kind == "obj" and len(s.buffer) > fl)
+    # drain everything that is left
+    for _ in range(4 * L + 8):
+        try:
+            out += run(s.receive(100))
+        except EndOfStream:
+            if not s.buffer:
+                break
+    else:
+        raise Violation("drain-did-not-terminate")
+    from_stream = bytes(b for b in out if b <= 100)
+    from_feed = bytes(b for b in out if b > 100)
+    chk(from_stream == data, "stream-bytes-dropped-duplicated-or-reordered", {"got": list(from_stream), "want": list(data)})
+    chk(from_feed == (fed if st["fed"] else b""), "fed-bytes-dropped-or-duplicated", {"got": list(from_feed), "fed": list(fed) if st["fed"] else [], "buffer_len_at_feed": st.get("buffer_at_feed")})
+
+
 # ---- text ---------------------------------------------------------------------------
 ALPHABET = ["a", "é", "€", "\U0001d11e", "﻿"]
 
@@ -384,6 +455,8 @@ def units(tier):
         for calls in ("er", "ue", "re"):
             for fk in ("cancel", "error"):
                 us.append({"name": "buf %s %s fault=%s L=2" % (kind, calls, fk), "fn": buffered, "params": {"kind": kind, "calls": calls, "L": 2, "fault": fk}, "budget_s": B})
+        for calls in ("r", "e", "rr", "er"):
+            us.append({"name": "buf %s %s feed_data while the call waits L=3" % (kind, calls), "fn": buffered_feed_during, "params": {"kind": kind, "calls": calls, "L": 3}, "budget_s": B, "certify": False})
         us.append({"name": "buf %s feed+e L=2" % kind, "fn": buffered, "params": {"kind": kind, "calls": "e", "L": 2, "feed": True}, "budget_s": B})
         if not quick:
             for calls in ("rue", "eur", "uue", "eer"):
